@@ -2,7 +2,7 @@
    Property theorems only: statement, exact, Print Assumptions.  Proofs: proofs/C09P.v.
    Model: model/DailyLog.v (tables, marks of every write, DailyMutations::write, DailyLogsUpdate::compute
    with hashes as free terms); run/oracle: run/Run_C09.v. *)
-From DV Require Import Run_C09 C09P.
+From DV Require Import Run_C09 C09P C09V2P.
 
 (* the statement at full strength, against the model: at every point at which the tables are read
    back with no recomputation pending, count + daily hash are the from-scratch recount (CDaily) and
@@ -132,6 +132,48 @@ Print Assumptions C09_refuted_history.
 Theorem C09_refuted_empty_row : spec_C09 w_empty_row (run_C09 w_empty_row) = false /\ known_C09 w_empty_row = [4; 5].
 Proof. exact refuted_empty_row. Qed.
 Print Assumptions C09_refuted_empty_row.
+(* (7) READY TO SWITCH ON — about compute_v2, the model of DailyLogsUpdate::compute with
+   requests/C09-fix-6.diff (validated against a patched copy of /repo: 0 disagreements, both oracles
+   true on every read-back; DailyLog.compute still points at compute_v1 = /repo as it is).
+   compute_v2 has the three properties every theorem above uses of `compute`: *)
+Theorem C09_v2_compute_establishes : forall p s s' rep, PInv p s (log s) -> compute_v2 s = (s', rep) ->
+  (forall l, In l (log s') -> clean_ok s' p l) /\ PInv p s' (log s').
+Proof. exact compute_v2_ok. Qed.
+Print Assumptions C09_v2_compute_establishes.
+Theorem C09_v2_reports_all_dirty : forall s s' rep, compute_v2 s = (s', rep) ->
+  forall l, In l (log s) -> l_dirty l = true -> In (lrow_key l) rep.
+Proof. exact compute_v2_reports_all_dirty. Qed.
+Print Assumptions C09_v2_reports_all_dirty.
+Theorem C09_v2_leaves_nothing_dirty : forall s s' rep, compute_v2 s = (s', rep) ->
+  forall l, In l (log s') -> l_dirty l = false.
+Proof. exact compute_v2_leaves_nothing_dirty. Qed.
+Print Assumptions C09_v2_leaves_nothing_dirty.
+(* the history column: one recomputation over the rows of a room, read in (day, entity) order, whose
+   clean rows before the first dirty one are chained (all that writes and earlier recomputations leave
+   behind), yields rows that are clean, carry the recount of their key, and whose history column is
+   the fold of their daily hashes in that order — a function of the stored content; a key that stores
+   nothing keeps no row *)
+Theorem C09_history_holds : forall s r rows,
+  (forall l, In l rows -> l_room l = r) ->
+  (forall l, In l rows -> row_ok s [] l) ->
+  chained_until_dirty None rows ->
+  let out := fst (loop2 s c2init rows) in
+  map l_hist out = hist_fold None (map l_daily out) /\
+  (forall l', In l' out -> l_dirty l' = false /\ (l_n l', l_daily l') = recount s (lrow_key l')) /\
+  (forall l, In l rows -> (exists l', In l' out /\ lrow_key l' = lrow_key l) \/ content s (lrow_key l) = []).
+Proof. exact history_holds. Qed.
+Print Assumptions C09_history_holds.
+(* closed, end to end through compute_v2 (row selection, both sorts, two entities): day by day = one
+   pass = the canonical log; a change on an earlier day re-chains the later days; an emptied day
+   loses its row *)
+Example C09_v2_daybyday_equals_onepass :
+  log (c2 (step2 (SNodes 1 [sn 3 1 (2 * D + 5000) 3]) (c2 (step2 (SNodes 1 [sn 2 2 (D + 5000) 2]) (c2 (step2 (SNodes 1 [sn 1 1 5000 1]) (init 1000)))))))
+  = log (c2 (step2 (SNodes 1 [sn 1 1 5000 1; sn 2 2 (D + 5000) 2; sn 3 1 (2 * D + 5000) 3]) (init 1000))) /\
+  map raw_of (log (c2 (step2 (SNodes 1 [sn 1 1 5000 1; sn 2 2 (D + 5000) 2; sn 3 1 (2 * D + 5000) 3]) (init 1000))))
+  = canon_log_v2 (d_content (dump_of (c2 (step2 (SNodes 1 [sn 1 1 5000 1; sn 2 2 (D + 5000) 2; sn 3 1 (2 * D + 5000) 3]) (init 1000))))).
+Proof. exact v2_daybyday_equals_onepass. Qed.
+Print Assumptions C09_v2_daybyday_equals_onepass.
+
 Theorem C09_full_refuted : ~ C09_full.
 Proof. exact full_refuted. Qed.
 Print Assumptions C09_full_refuted.
